@@ -170,6 +170,20 @@ def stepLine (s : S) (w : List String) : S × List String :=
         | .error e => (s, [showErr e])
         | .ok (out, h, it) => ({ s with cells := tabulate s.n h, it := it, opened := false }, [showSeq s.post "seq" out])
     else (s, ["seq"])
+  | ["complete"] =>     -- `bintree_iterate_complete`: the same calls as `resume`, results dropped
+    if s.opened then
+      match next s.isList s.fuel s.heap s.it with
+      | .error e => (s, [showErr e])
+      | .ok (r, h1, it1) =>
+        match drain s.isList s.fuel s.fuel h1 it1 r with
+        | .error e => (s, [showErr e])
+        | .ok (_, h, it) => ({ s with cells := tabulate s.n h, it := it, opened := false }, ["done"])
+    else (s, ["done"])
+  -- bintree_visualize / bintree_graphviz / bintree_is_leaf only observe the tree: not modelled, the heap stays as it
+  -- is (`~` = the model has nothing to say about the output; the link image that follows is what is compared)
+  | ["viz"] => (s, ["~"])
+  | "dot" :: _ => (s, ["~"])
+  | ["leaf", _] => (s, ["~"])
   | ["trav", o] =>
     let r := match o with
       | "in" => some (travIn s.fuel s.heap s.root)
